@@ -429,6 +429,13 @@ func (e *E) pathsOfHit(h Hit) ([]string, bool) {
 			}
 		case KMInt, KMIface:
 			paths = append(paths, fc.Path+".p", fc.Path+".q", fc.Path+".z")
+		case KMSlice:
+			for _, k := range []string{"p", "q", "z"} {
+				paths = append(paths, fc.Path+"."+k)
+				for i := 0; i < 4; i++ {
+					paths = append(paths, fc.Path+"."+k+"."+itoa(i))
+				}
+			}
 		}
 		if fc.F.Kind == KInner || fc.F.Kind == KPInner {
 			paths = append(paths, fc.Path+".x", fc.Path+".y")
